@@ -1144,7 +1144,7 @@ func (g *gl) ifStmt(w *wr, v *ast.IfStmt, kw string) {
 					if r, ok := v.Body.List[0].(*ast.ReturnStmt); ok && len(r.Results) == 0 {
 						x := g.expr(c.Args[0])
 						w.line("log := log ++ [" + x.opnd() + "]")
-						w.line("if !(yield " + x.arg() + ") then")
+						w.line("if !(yield log) then")
 						w.ind++
 						w.line("return log")
 						w.ind--
@@ -1726,12 +1726,12 @@ func (g *gl) funcOrMethod(recvType, goName, name, rel, placeholder string) {
 			}
 			elem := named.TypeArgs().At(0)
 			g.yieldT = g.leanType(elem)
-			params = append(params, "(yield : "+g.yieldT+" → Bool)")
+			params = append(params, "(yield : List "+paren(g.yieldT)+" → Bool)")
 			resT = "List " + paren(g.yieldT)
 			g.findMutated(fl.Body)
 			w.line("let mut log : " + resT + " := []")
 			body = fl.Body.List
-			doc = "; `yield` is the consumer, the result the log of yielded items"
+			doc = "; `yield` is the consumer -- ANY deterministic consumer, stateful ones included: it is given the list of all items handed to it so far, the current one last -- and the result is the log of yielded items"
 		} else {
 			resT = g.leanType(rt)
 		}
@@ -2065,7 +2065,7 @@ func (g *gl) iterMethod(lname, readName, recvType, method, kind, rel, recT, plac
 		w.line("(none : Option Unit)")
 		w.ind--
 		w.line("return log")
-		text := fmt.Sprintf("def %s_Found : Bool := true\n/-- translated from (*%s).%s in %s/%s; `fuel` bounds the `for {}` loop (out of fuel = `none`), `yield` is the consumer, the result the log of items handed to it -/\ndef %s (fuel : Nat) (%s : %s) (ending : Ending) (yield : %s → Bool) : Option (List (%s)) := do\n%s",
+		text := fmt.Sprintf("def %s_Found : Bool := true\n/-- translated from (*%s).%s in %s/%s; `fuel` bounds the `for {}` loop (out of fuel = `none`), `yield` is the consumer (given all items handed to it so far, the current one last; so stateful consumers are covered), the result the log of items handed to it -/\ndef %s (fuel : Nat) (%s : %s) (ending : Ending) (yield : List (%s) → Bool) : Option (List (%s)) := do\n%s",
 			lname, recvType, method, rel, file, lname, st, stT, g.iterRec, g.iterRec, w.b.String())
 		return text, nil
 	})
@@ -2114,7 +2114,7 @@ func (g *gl) iterStmt(w *wr, s ast.Stmt) bool {
 		if c, ok := v.X.(*ast.CallExpr); ok {
 			if item, ok := yieldArgs(c); ok { // result ignored by the Go code
 				w.line("log := log ++ [" + item + "]")
-				w.line("let _ := yield " + item)
+				w.line("let _ := yield log")
 				return true
 			}
 		}
@@ -2134,7 +2134,7 @@ func (g *gl) iterStmt(w *wr, s ast.Stmt) bool {
 			if c, ok := u.X.(*ast.CallExpr); ok {
 				if item, ok := yieldArgs(c); ok {
 					w.line("log := log ++ [" + item + "]")
-					w.line("if !(yield " + item + ") then")
+					w.line("if !(yield log) then")
 					w.ind++
 					g.block(w, v.Body.List)
 					w.ind--
@@ -2343,7 +2343,7 @@ func goLean(repo, out string) {
 	g.function("DNATo2Bit", "sequtil", "def DNATo2Bit (g_ntoi : List Int) (dst : "+B+") (src : "+B+") : Option ("+B+") := none")
 	g.function("DNAFrom2Bit", "sequtil", "def DNAFrom2Bit (g_dnaFrom2bit : "+BB+") (dst : "+B+") (src : "+B+") : Option ("+B+") := none")
 	g.initFunc(1, "sequtil", "def init_1 : Option ("+BB+") := none")
-	g.function("CanonicalSubsequences", "sequtil", "def CanonicalSubsequences (g_complementBytes : "+B+") (seq : "+B+") (k : Int) (yield : "+B+" → Bool) : Option ("+BB+") := none")
+	g.function("CanonicalSubsequences", "sequtil", "def CanonicalSubsequences (g_complementBytes : "+B+") (seq : "+B+") (k : Int) (yield : "+BB+" → Bool) : Option ("+BB+") := none")
 	g.function("Translate", "sequtil", "def Translate (g_codonToAmino : List (List UInt8 × UInt8)) (dst : "+B+") (src : "+B+") : Option ("+B+") := none")
 	g.function("TranslateReadingFrames", "sequtil", "def TranslateReadingFrames (g_codonToAmino : List (List UInt8 × UInt8)) (seq : "+B+") : Option ("+BB+") := none")
 	for _, n := range g.order {
@@ -2369,10 +2369,10 @@ func goLean(repo, out string) {
 		"def fastq_read (lines : "+BB+") (ending : Ending) : Option ((Option ("+B+" × "+B+" × "+B+") × GoErr) × "+BB+") := none")
 	w.WriteString(g4.funcs["fastq_read"].text + "\n")
 	g3.iterMethod("fasta_iter", "fasta_read", "reader", "iter", "bytes", "formats/fasta", B+" × "+B,
-		"def fasta_iter (fuel : Nat) (src : "+B+") (ending : Ending) (yield : Option ("+B+" × "+B+") × GoErr → Bool) : Option (List (Option ("+B+" × "+B+") × GoErr)) := none")
+		"def fasta_iter (fuel : Nat) (src : "+B+") (ending : Ending) (yield : List (Option ("+B+" × "+B+") × GoErr) → Bool) : Option (List (Option ("+B+" × "+B+") × GoErr)) := none")
 	w.WriteString(g3.funcs["fasta_iter"].text + "\n")
 	g4.iterMethod("fastq_iter", "fastq_read", "reader", "iter", "lines", "formats/fastq", B+" × "+B+" × "+B,
-		"def fastq_iter (fuel : Nat) (lines : "+BB+") (ending : Ending) (yield : Option ("+B+" × "+B+" × "+B+") × GoErr → Bool) : Option (List (Option ("+B+" × "+B+" × "+B+") × GoErr)) := none")
+		"def fastq_iter (fuel : Nat) (lines : "+BB+") (ending : Ending) (yield : List (Option ("+B+" × "+B+" × "+B+") × GoErr) → Bool) : Option (List (Option ("+B+" × "+B+" × "+B+") × GoErr)) := none")
 	w.WriteString(g4.funcs["fastq_iter"].text + "\n")
 	// the Write methods of the two record types
 	g3.writerMethod("fasta_Write", "Fasta", "Write", "formats/fasta",
